@@ -78,6 +78,20 @@ def build_cases(thorough):
     ex = corpus.repo_examples()
     for o, t in (ex if thorough else r.sample(ex, 250)):
         add(f"example:{o}", t, r.choice(OPTION_VECTORS), kind="example")
+    # opt-out comments on lines that a rule wants to rewrite, move or delete: refusing the edit must not make the rule loop or crash
+    import textwrap
+
+    from . import c09, c20
+
+    annotated = [(f"antagonist{i}", t) for i, t in enumerate(c09.ANTAGONISTS)] + [(f"renamer{i}", t) for i, t in enumerate(c20.RENAMERS)]
+    annotated += [(o, textwrap.dedent(t)) for o, t in (ex if thorough else r.sample(ex, 120)) if len(t) < 1500]
+    for sid, text in annotated:
+        idx = c20.annotatable_lines(text)
+        rr = env.rng(PROP, "ignore", sid)
+        for i in (idx if thorough and len(idx) < 12 else rr.sample(idx, min(len(idx), 3))):
+            lines = text.split("\n")
+            lines[i] += c20.IGNORE
+            add(f"ignore:{sid}:{i}", "\n".join(lines), rr.choice(OPTION_VECTORS[:3]), kind="example")
     for o, t in corpus.stdlib_files(30000 if thorough else 9000, limit=250 if thorough else 45):
         add(f"stdlib:{o}", t, r.choice(OPTION_VECTORS[:2]), kind="stdlib")
     if thorough:
